@@ -33,6 +33,13 @@ fn column_defs() -> Vec<ColSpec> {
             v.push(n(ColSpec::new("C", Ty::Str(0)).category(cat)));
             v.push(n(ColSpec::new("C", Ty::Str(4)).category(cat)));
         }
+        // attributes that do not belong to the type
+        v.push(n(ColSpec::new("C", Ty::Str(8)).range(0, 9)));
+        v.push(n(ColSpec::new("C", Ty::Str(0)).range(-5, 100)));
+        v.push(n(ColSpec::new("C", Ty::I16).enums(&["1", "2", "a"])));
+        v.push(n(ColSpec::new("C", Ty::I32).enums(&["5"]).category("Integer")));
+        v.push(n(ColSpec::new("C", Ty::I16).category("Identifier")));
+        v.push(n(ColSpec::new("C", Ty::I16).localizable()));
         v.push(n(ColSpec::new("C", Ty::Str(40)).category("GUID")));
         v.push(n(ColSpec::new("C", Ty::Str(0)).category("Identifier").enums(&["a", "9"])));
     }
